@@ -2,6 +2,7 @@
 from .. import terms as T
 from ..terms import C, NONE
 from .. import engine as E
+from . import common
 
 THR = ['amp_fraction_threshold', 'amp_consistency_threshold', 'period_consistency_threshold', 'monotonicity_threshold', 'min_n_cycles']
 
@@ -73,7 +74,8 @@ def route(rep, model, method='cycles', detector='detect_bursts_cycles', rule='RO
         want_sh = {'sig': ('param', 'sig'), 'fs': ('param', 'fs'), 'f_range': ('param', 'f_range'), 'center_extrema': ('param', 'center_extrema'),
                    'find_extrema_kwargs': ('param', 'find_extrema_kwargs')}
         # only the arguments the labels depend on are pinned here; the band-amplitude filter length is C04's BAND-WIRING, return_samples C09's RS-LATE
-        if len(sh) == 1 and {k: sh[0]['bound'].get(k) for k in want_sh} == want_sh and sh[0]['guard'] == T.TRUE and not sh[0]['problems']:
+        if len(sh) == 1 and all(sh[0]['bound'].get(k) == v or (k == 'find_extrema_kwargs' and common.same_extrema_options(model, sh[0]['bound'].get(k, NONE), v))
+                                for k, v in want_sh.items()) and sh[0]['guard'] == T.TRUE and not sh[0]['problems']:
             rep.ok(rule, inst + ':shape call', site, found='compute_shape_features(sig, fs, f_range, center_extrema=, find_extrema_kwargs=) bound by name')
         else:
             rep.violation(rule, inst + ':shape call', site, expected={k: T.show(v) for k, v in want_sh.items()},
